@@ -34,6 +34,11 @@ type FaultSpec struct {
 	// Then is a second fault in the same process: what the code does after the first fault
 	// (clean-up, fallback, retry) is I/O too and can be cut short as well.
 	Then *FaultSpec `json:"then,omitempty"`
+	// Follow: after the faulted process, run a small healthy save and a search from the disk it left
+	// behind (stray temporary files included) and from the same disk without the strays; both must
+	// produce the same notebook and history. A leftover of an interrupted write must not leak into a
+	// later write.
+	Follow bool `json:"follow,omitempty"`
 }
 
 type C09Case struct {
@@ -277,7 +282,7 @@ func runC09(c C09Case) *Outcome {
 			if !interesting {
 				continue
 			}
-			specs = append(specs, FaultSpec{Kind: "kill-before", At: ev.Idx}, FaultSpec{Kind: "kill-after", At: ev.Idx})
+			specs = append(specs, FaultSpec{Kind: "kill-before", At: ev.Idx, Follow: true}, FaultSpec{Kind: "kill-after", At: ev.Idx, Follow: true})
 			// refused calls: on the write path only. A failing read or stat changes what the step
 			// computes (and is not "a write cut short"); the exact old-or-new oracle applies to writes.
 			switch ev.Op {
@@ -288,8 +293,9 @@ func runC09(c C09Case) *Outcome {
 			}
 			if ev.Op == "write" {
 				ks := kSet(ev.N, c.KSeeds, thorough)
-				for _, k := range ks {
-					specs = append(specs, FaultSpec{Kind: "torn", At: ev.Idx, K: k})
+				for i, k := range ks {
+					follow := k >= ev.N-2 || i%(len(ks)/10+1) == 0
+					specs = append(specs, FaultSpec{Kind: "torn", At: ev.Idx, K: k, Follow: follow})
 				}
 				// short writes: a thinner set of k, every errno
 				for i, k := range ks {
@@ -492,6 +498,15 @@ func (c *C09Case) judge(w *pworld, args []string, spec FaultSpec, tag, oldNB, ne
 			}
 		}
 	}
+	if spec.Follow || c.Only != nil {
+		if sig, msg, err := c.followUp(w, res, tag, spec); err != nil {
+			v.err = err
+			return v
+		} else if sig != "" {
+			v.sig, v.msg = sig, msg
+			return v
+		}
+	}
 	st := nbState
 	if !isSave {
 		st = hState
@@ -501,6 +516,47 @@ func (c *C09Case) judge(w *pworld, args []string, spec FaultSpec, tag, oldNB, ne
 		v.out = spec.Kind + "/not-fired"
 	}
 	return v
+}
+
+// followUp: leftovers of the faulted process must not influence later writes.
+func (c *C09Case) followUp(w *pworld, res *NodeResult, tag string, spec FaultSpec) (sig, msg string, err error) {
+	clean := res.Disk.Clone()
+	strays := 0
+	for p := range res.Disk.Files {
+		if !(strings.HasPrefix(p, "/home/u/.config/cmd-finder/") || strings.HasPrefix(p, "/home/u/.config/wtf/")) {
+			continue
+		}
+		if p == pNotebook || p == pHistory {
+			continue
+		}
+		clean.RemoveRaw(p)
+		strays++
+	}
+	if strays == 0 {
+		return "", "", nil
+	}
+	steps := [][]string{{"save", "--", "zz", "s"}, {"search", "--all-platforms", "-d", pMainDB, "zz"}}
+	a := &pworld{disk: res.Disk.Clone(), clockNS: w.clockNS + int64(time.Hour)}
+	b := &pworld{disk: clean, clockNS: w.clockNS + int64(time.Hour)}
+	for _, args := range steps {
+		ra, e := a.run(argsOf(args...), nil, nil, tag+"a")
+		if e != nil {
+			return "", "", e
+		}
+		rb, e := b.run(argsOf(args...), nil, nil, tag+"b")
+		if e != nil {
+			return "", "", e
+		}
+		if ra.Exit != "exit" || rb.Exit != "exit" {
+			return "followup-crash", fmt.Sprintf("after fault %v a later `wtf %s` crashed: %s / %s", spec, args[0], exitDesc(ra), exitDesc(rb)), nil
+		}
+		for _, f := range []string{pNotebook, pHistory} {
+			if fileOf(a.disk, f) != fileOf(b.disk, f) {
+				return "leftover-leaks:" + spec.Kind, fmt.Sprintf("after fault %v the interrupted process left %d stray file(s); a later healthy `wtf %s` then wrote %s with %d bytes, but %d bytes when the strays are removed first: a leftover of the interrupted write leaked into the file", spec, strays, strings.Join(args, " "), f, len(fileOf(a.disk, f)), len(fileOf(b.disk, f))), nil
+			}
+		}
+	}
+	return "", "", nil
 }
 
 func TestC09(t *testing.T) { runProperty(t, "C09", genC09, runC09) }
